@@ -108,6 +108,54 @@ def main() -> int:
             spec_failures.append({"suite": "unknown-tables-same", "sql": rec["sql"], "metadata": rec["metadata"], "with_metadata": g, "without": b,
                                   "spec": "tables the provider does not know get the same answer as without metadata"})
     dist["generated"] = n
+    # ---- S_md: the implementation against the executable specification WITH a catalog (Ast/SpecMeta.v), evaluated in Coq
+    # together with the guards of the theorems (c13_columns_exact_with_metadata_plain_items, c13_star_expands_to_catalog_columns):
+    # single-SELECT statements over schema-qualified base tables x catalogs over their tables (overlap none / partial / full)
+    import c04 as _c04
+    from common import coq_eval, coq_string
+    sm = []
+    for ss in _c04.core_scripts(r, 260 if quick else 4000):
+        st = ss[0]
+        if st[0] == "query" or astgen.stmt_query(st)[0] != "select":
+            continue
+        # schema-qualify every table (catalog keys are printed names)
+        def qual(t):
+            return t if t[0] else ("s", t[1])
+        q = astgen.stmt_query(st)
+        rels = [("table", qual(rr[1]), rr[2]) for rr in q[2]]
+        q2 = ("select", q[1], rels, q[3], q[4])
+        st2 = (st[0], qual(st[1])) + ((st[2], q2) if st[0] == "insert" else (q2,))
+        tabs = sorted({"%s.%s" % rr[1] for rr in rels} | {"%s.%s" % qual(st[1])})
+        md = {"zz.unrelated": ["q1"]}
+        pool = ["x", "y", "z", "k", "m"]
+        for t in tabs:
+            if r.random() < 0.55:
+                md[t] = r.sample(pool, r.choice([1, 2, 3]))
+        sm.append((st2, md))
+    g_md = lambda md: "[%s]" % "; ".join("(%s, [%s])" % (coq_string(k), "; ".join(coq_string(c) for c in v)) for k, v in sorted(md.items()))
+    exprs = []
+    for st2, md in sm:
+        gs, gm = astgen.g_stmt(st2), g_md(md)
+        exprs.append("(if stmt_ok %s && sshape %s && colshape %s && sel_tables_syntactic %s && md_ok \"\" %s %s then (if items_plain_s %s then \"P:\" else \"S:\") else \"out:\") ++ join \";\" (spec_pairs_md \"\" %s %s)"
+                     % (gs, gs, gs, gs, gm, gs, gs, gm, gs))
+    sp_md = coq_eval("From SV Require Import Ast.Spec Ast.SpecMeta Tree.LemmaA Tree.LemmaAProofs Tree.LemmaB Tree.LemmaBProofs Tree.LemmaBMeta.\nOpen Scope string_scope.", exprs, shard=150)
+    im_md = t2tie.summaries([{"sql": astgen.to_sql(st2), "dialect": "ansi", "metadata": md, "config": {}} for st2, md in sm])
+    dist["spec_md"] = {"statements": len(sm), "inside_md_ok": 0, "proved_fragment_plain_items": 0, "differs_from_no_metadata": 0}
+    nomd = t2tie.summaries([{"sql": astgen.to_sql(st2), "dialect": "ansi", "metadata": None, "config": {}} for st2, md in sm])
+    for (st2, md), sp, im, nm in zip(sm, sp_md, im_md, nomd):
+        ck.count()
+        if sp.startswith("out:"):
+            continue
+        dist["spec_md"]["inside_md_ok"] += 1
+        dist["spec_md"]["proved_fragment_plain_items"] += sp.startswith("P:")
+        dist["spec_md"]["differs_from_no_metadata"] += im != nm
+        exp = sp[2:]
+        got = im.split("#", 1)[1] if "#" in im else im
+        ck.nontriv(("spec-md", astgen.to_sql(st2), repr(sorted(md.items()))))
+        if got != exp:
+            spec_failures.append({"suite": "S_md-specification-with-catalog", "sql": astgen.to_sql(st2), "metadata": md, "impl_pairs": got, "spec_pairs_md": exp,
+                                  "inside_proved_fragment": sp.startswith("P:"),
+                                  "spec": "column attribution with metadata: star expansion, listers of an unqualified column, positions of a known target (Ast/SpecMeta.v)"})
     # ---- clause scenarios ----------------------------------------------------------------------------------
     sc = scenarios(r, False) + scenarios(r, True)
     got = t2tie.summaries([x for x, _, _ in sc])
